@@ -4,14 +4,14 @@ from scope import Scope
 from sites import BodySites
 
 
-def scopes(ctx, with_catalogue=True, configs=None):
+def scopes(ctx, with_catalogue=True, configs=None, inline=True):
     """yield (label, Scope, local crate names) for every fact set the tier covers"""
     out = []
     done_default = False
     if with_catalogue:
         try:
             c = ctx.corpus("catalogue")
-            out.append(("catalogue+lib/default", Scope([c["deserr"], c["deserr_catalogue"]]), {"deserr", "deserr_catalogue"}))
+            out.append(("catalogue+lib/default", Scope([c["deserr"], c["deserr_catalogue"]], inline=inline), {"deserr", "deserr_catalogue"}))
             done_default = True
         except extract.CorpusBuildFailed as e:
             # the derive no longer produces compiling code for (part of) the catalogue: that is reported by the
@@ -21,7 +21,7 @@ def scopes(ctx, with_catalogue=True, configs=None):
         if cfg == "default" and done_default:
             continue
         l = ctx.lib(cfg)
-        out.append(("lib/" + cfg, Scope([l["deserr"]]), {"deserr"}))
+        out.append(("lib/" + cfg, Scope([l["deserr"]], inline=inline), {"deserr"}))
     return out
 
 
